@@ -23,7 +23,7 @@ RULE = ("cases from rng(seed, 14, 0, i): a file of 5..60 lines mixing all 10 sup
         "distinct = fingerprint of the file text; non-trivial = >= 3 supported line types and >= 1 junk line.")
 REQ = ["eval:objects-match-tokenizer", "eval:warnings-match-junk-lines", "eval:junk-removal-changes-nothing", "eval:entry-points-agree", "eval:custom-types-claim-own-lines", "eval:reload-after-another-file-identical",
        "line:VERTEX_SE2", "line:VERTEX_SE3:QUAT", "line:VERTEX_XY", "line:VERTEX_TRACKXYZ", "line:EDGE_SE2", "line:EDGE_SE3:QUAT", "line:EDGE_SE2_XY", "line:EDGE_SE3_TRACKXYZ",
-       "line:PARAMS_SE2OFFSET", "line:PARAMS_SE3OFFSET", "class:crlf", "class:several_param_ids", "class:junk:tag_tab", "class:junk:leading_space", "class:junk:wrong_case", "class:junk:control_chars", "eval:loaded-objects-independent", "class:information_all_zero", "class:duplicate_edge_line"]
+       "line:PARAMS_SE2OFFSET", "line:PARAMS_SE3OFFSET", "class:crlf", "class:several_param_ids", "class:junk:tag_tab", "class:junk:leading_space", "class:junk:wrong_case", "class:junk:control_chars", "class:file_name_with_percent_sign", "eval:loaded-objects-independent", "class:information_all_zero", "class:duplicate_edge_line"]
 PLAN = {
     "quick": {"cases": 1500, "soft_s": 70, "min_nontrivial": 400, "require": REQ},
     "thorough": {"cases": 80000, "soft_s": 1300, "min_nontrivial": 20000, "require": REQ},
@@ -335,6 +335,15 @@ class Capture(logging.Handler):
         self.records.append(record)
 
 
+def render_record(rec):
+    """The text a handler would emit for a log record; a record whose message cannot be formatted renders as a marker (and is counted as a defect of
+    the warning by the callers: the junk line it was meant to quote is not in it)."""
+    try:
+        return rec.getMessage()
+    except Exception as ex:  # noqa: BLE001
+        return "<unrenderable log record: %s: %s>" % (type(ex).__name__, ex)
+
+
 def load_with_log(fn, *a, **kw):
     lg = logging.getLogger("graphslam.graph")
     h = Capture()
@@ -380,7 +389,10 @@ def run_case(ctx, i, rng):
     ctypes = [custom.TaggedDistanceEdge, custom.TaggedPriorEdge]
     ctags = {c.TAG for c in ctypes}
     try:
-        path = os.path.join(d, "in.g2o")
+        fname = ["in.g2o", "parking%20garage.g2o", "overlap_50%_run %s.g2o", "sp ace {x} [1].g2o", "in.g2o"][int(rng.integers(5))]
+        if "%" in fname:
+            ctx.count("class:file_name_with_percent_sign")
+        path = os.path.join(d, fname)
         with open(path, "w", newline="") as f:
             f.write(text)
         verts, edges, params, junk = expected_from_text(lines, ctags if with_custom else set())
@@ -396,7 +408,24 @@ def run_case(ctx, i, rng):
             before = [np.array(e.information, dtype=float, copy=True) for e in gm._edges]
             for j, e in enumerate(gm._edges):
                 e.information *= float(j + 2)
-            indep = all(np.array_equal(np.asarray(e.information), before[j] * float(j + 2), equal_nan=True) for j, e in enumerate(gm._edges))
+            # measurements and offsets as well: each loaded edge owns them (written in place: [0] += its own index + 1)
+            for what in ("estimate", "offset"):
+                objs = [getattr(e, what, None) for e in gm._edges]
+                objs = [(j, o) for j, o in enumerate(objs) if isinstance(o, np.ndarray) and o.ndim == 1 and o.size and all(math.isfinite(float(x)) for x in o)]
+                b4 = {j: float(o[0]) for j, o in objs}
+                for j, o in objs:
+                    o[0] = float(o[0]) + float(j + 1)
+                for j, o in objs:
+                    # (parameter-backed SE(3) offsets are shared by design between the edges that name the same PARAMS id: judged through the later load only)
+                    if what == "estimate" and float(o[0]) != b4[j] + float(j + 1):
+                        indep_extra = False
+                        break
+                else:
+                    continue
+                break
+            else:
+                indep_extra = True
+            indep = indep_extra and all(np.array_equal(np.asarray(e.information), before[j] * float(j + 2), equal_nan=True) for j, e in enumerate(gm._edges))
             vb = [list(M.fl(v.pose)) for v in gm._vertices]
             for j, v in enumerate(gm._vertices):
                 v.pose[0] = float(j) + 0.5
@@ -407,7 +436,7 @@ def run_case(ctx, i, rng):
                       {"in_place_edits_stay_local": bool(indep), "later_load_unaffected": graph_signature(g_after) == graph_signature(g)}, case)
         except Exception as ex:  # noqa: BLE001
             ctx.check("loaded-objects-independent", False, dict(feats, exception=type(ex).__name__), {"message": str(ex)[:300]}, case)
-        warned = [r.getMessage() for r in recs if r.levelno >= logging.WARNING]
+        warned = [render_record(r) for r in recs if r.levelno >= logging.WARNING]
         okw = len(warned) == len(junk) and all(j in w for j, w in zip(junk, warned))
         ctx.check("warnings-match-junk-lines", okw, feats, {"expected_junk": junk[:5], "warnings": warned[:5], "n": [len(junk), len(warned)]}, case)
         if with_custom:
@@ -442,7 +471,7 @@ def run_case(ctx, i, rng):
             f.write(clean)
         g2, recs2 = load_with_log(M.Graph.from_g2o, p2, custom_edge_types=ctypes if with_custom else None)
         ctx.check("junk-removal-changes-nothing", graph_signature(g) == graph_signature(g2) and not [r for r in recs2 if r.levelno >= logging.WARNING], feats,
-                  {"warnings_on_clean_file": [r.getMessage() for r in recs2][:3]}, case)
+                  {"warnings_on_clean_file": [render_record(r) for r in recs2][:3]}, case)
         # entry points
         if not with_custom:
             base = graph_signature(g)
@@ -473,7 +502,7 @@ def _dataset_case(name):
         verts, edges, params, junk = expected_from_text(lines, set())
         g, recs = load_with_log(M.Graph.from_g2o, datasets.path(name))
         compare_loaded(ctx, g, verts, edges, params, {"with_custom_types": False, "where": "dataset:" + name}, {"dataset": name})
-        warned = [r.getMessage() for r in recs if r.levelno >= logging.WARNING]
+        warned = [render_record(r) for r in recs if r.levelno >= logging.WARNING]
         ctx.check("warnings-match-junk-lines", len(warned) == len(junk), {"where": "dataset:" + name}, {"n": [len(junk), len(warned)]}, {"dataset": name})
         ctx.count("dataset:" + name)
         ctx.nontrivial("dataset-" + name)
